@@ -21,6 +21,16 @@ func (tr *fnTrans) call(in *ssa.Call) {
 		it := shortType(cm.Value.Type())
 		key := it + "." + cm.Method.Name()
 		c := tr.v.contracts[key]
+		if c == nil && recv.T != nil && recv.T.Name == "Int" && recv.T.Elem != nil && strings.HasPrefix(recv.T.Elem.Name, "S_") {
+			// interface modelled by its unique pointer implementation: use the method's own contract
+			parts := strings.SplitN(strings.TrimPrefix(recv.T.Elem.Name, "S_"), "_", 2)
+			if len(parts) == 2 {
+				k2 := parts[0] + "." + parts[1] + "." + cm.Method.Name()
+				if c2 := tr.v.contracts[k2]; c2 != nil {
+					key, c = k2, c2
+				}
+			}
+		}
 		if c == nil {
 			tr.errorf("no contract for interface method %s (called in %s)", key, tr.key)
 			tr.havocResult(in)
@@ -220,7 +230,7 @@ func (tr *fnTrans) applyContract(in *ssa.Call, c *Contract, key string, args []T
 			tr.decl(fmt.Sprintf("(declare-const %s %s)", n, heapSortName(tr.maps[m])))
 			tr.heap[m] = n
 			tr.hyp(tr.frameFormula(m, h0, n, allocPre, mods))
-			tr.atStep(m, h0, n, tr.touchedByMods(allocPre, m, mods))
+			tr.atStep(m, h0, n, tr.touchedByMods(allocPre, m, mods), tr.touchedByMods(allocPre, m, mods))
 		}
 	}
 	post := tr.env()
@@ -237,7 +247,10 @@ func (tr *fnTrans) applyContract(in *ssa.Call, c *Contract, key string, args []T
 	for _, rt := range rts {
 		tr.hyp(implies(in0, tr.wf(rt, tr.alloc)))
 	}
-	for _, e := range c.Ensures {
+	for i, e := range c.Ensures {
+		if tr.v.knownClause[fmt.Sprintf("%s/post[%s]", key, labelOr(e.Label, i))] {
+			continue // a clause listed as a known finding is false for the real code: never assumed
+		}
 		t, err := tr.spec(e.E, post)
 		if err != nil {
 			tr.errorf("%s: ensures of %s: %s: %v", tr.key, key, e.Src, err)
@@ -322,7 +335,8 @@ func (tr *fnTrans) appendOp(in *ssa.Call, s, xs Term) {
 		at := "at_" + es.Tag()
 		A2 := tr.curHeap(name)
 		tr.atStep(name, A, A2, or(app("=", "(sarr s!s)", id), and(app("=", "(sarr s!s)", slArr(s.S)),
-			app(">=", "(+ (soff s!s) k!s)", app("+", slOff(s.S), ln)), app("<", "(+ (soff s!s) k!s)", app("+", slOff(s.S), nl)))))
+			app(">=", "(+ (soff s!s) k!s)", app("+", slOff(s.S), ln)), app("<", "(+ (soff s!s) k!s)", app("+", slOff(s.S), nl)))),
+			or(app("=", "(sarr s!s)", id), and(app("=", "(sarr s!s)", slArr(s.S)), app(">", app("+", "(soff s!s)", "(slen_ s!s)"), app("+", slOff(s.S), ln)))))
 		r := tr.vals[in].S
 		tr.hyp(implies(in0, fmt.Sprintf("(forall ((k!a Int)) (! (=> (and (<= 0 k!a) (< k!a %s)) (= (%s %s %s k!a) (%s %s %s k!a))) :pattern ((%s %s %s k!a)) :pattern ((%s %s %s k!a))))",
 			ln, at, A2, r, at, A, s.S, at, A2, r, at, A, s.S)))
@@ -348,7 +362,8 @@ func (tr *fnTrans) appendOp(in *ssa.Call, s, xs Term) {
 	tr.hyp(implies(in0, fmt.Sprintf("(forall ((j!a Int)) (! (=> (and (<= 0 j!a) (< j!a %s)) (= (select (select %s %s) (+ %s %s j!a)) (select (select %s %s) (+ %s j!a)))) :pattern ((select (select %s %s) (+ %s j!a)))))",
 		nn, A1, ra, ro, ln, A, slArr(xs.S), slOff(xs.S), A, slArr(xs.S), slOff(xs.S))))
 	tr.atStep(name, A, A1, or(app("=", "(sarr s!s)", id), and(app("=", "(sarr s!s)", slArr(s.S)),
-		app(">=", "(+ (soff s!s) k!s)", app("+", slOff(s.S), ln)), app("<", "(+ (soff s!s) k!s)", app("+", slOff(s.S), nl)))))
+		app(">=", "(+ (soff s!s) k!s)", app("+", slOff(s.S), ln)), app("<", "(+ (soff s!s) k!s)", app("+", slOff(s.S), nl)))),
+		or(app("=", "(sarr s!s)", id), and(app("=", "(sarr s!s)", slArr(s.S)), app(">", app("+", "(soff s!s)", "(slen_ s!s)"), app("+", slOff(s.S), ln)))))
 	{
 		at := "at_" + es.Tag()
 		tr.hyp(implies(in0, fmt.Sprintf("(forall ((k!a Int)) (! (=> (and (<= 0 k!a) (< k!a %s)) (= (%s %s %s k!a) (%s %s %s k!a))) :pattern ((%s %s %s k!a)) :pattern ((%s %s %s k!a))))",
@@ -384,7 +399,7 @@ func (tr *fnTrans) copyOp(in *ssa.Call, dst, src Term) {
 		n, A1, da, do, A, slArr(src.S), slOff(src.S), A1, da, do)))
 	tr.hyp(implies(in0, fmt.Sprintf("(forall ((k!a Int)) (! (=> (or (< k!a %s) (>= k!a (+ %s %s))) (= (select (select %s %s) k!a) (select (select %s %s) k!a))) :pattern ((select (select %s %s) k!a))))",
 		do, do, n, A1, da, A, da, A1, da)))
-	tr.atStep(name, A, A1, and(app("=", "(sarr s!s)", da), app(">=", "(+ (soff s!s) k!s)", do), app("<", "(+ (soff s!s) k!s)", app("+", do, n))))
+	tr.atStep(name, A, A1, and(app("=", "(sarr s!s)", da), app(">=", "(+ (soff s!s) k!s)", do), app("<", "(+ (soff s!s) k!s)", app("+", do, n))), app("=", "(sarr s!s)", da))
 	at := "at_" + es.Tag()
 	tr.hyp(implies(in0, fmt.Sprintf("(forall ((k!a Int)) (! (=> (and (<= 0 k!a) (< k!a %s)) (= (%s %s %s k!a) (%s %s %s k!a))) :pattern ((%s %s %s k!a)) :pattern ((%s %s %s k!a))))",
 		n, at, A1, dst.S, at, A, src.S, at, A1, dst.S, at, A, src.S)))
